@@ -212,7 +212,8 @@ def gen_signals(rng):
         x = rng.random()
         if x < 0.22 or nsig == 0: out.append("top sigprepare e%d" % rng.randrange(n)); nsig += 1
         elif x < 0.40: out.append("top sigclone a%d" % rng.randrange(nsig))
-        elif x < 0.70: out.append("top sigdrop a%d" % rng.randrange(nsig))
+        elif x < 0.62: out.append("top sigdrop a%d" % rng.randrange(nsig))
+        elif x < 0.70: out.append("top sigdroprace a%d" % rng.randrange(nsig))
         elif x < 0.78: out.append("top gc")
         elif x < 0.82: out.append("top sigthreads a%d %d" % (rng.randrange(nsig), rng.randint(1, 8)))
         elif x < 0.88: out.append("top wdespawn e%d" % rng.randrange(n))
@@ -786,6 +787,21 @@ def gen_burst(rng):
     out.append("top frameend")
     return "\n".join(out) + "\n"
 
+def gen_sigrace(rng):
+    """C10, concurrent last drops: many entities, each with one signal whose last handle and a fresh clone of it are dropped
+    by two racing threads; then one collection must despawn them all."""
+    out = ["def 0 1", "run 0"]
+    n = rng.randint(20, 40)
+    out.append("top acts %d" % n); out += ["spawn"] * n
+    for e in range(n): out.append("top sigprepare e%d" % e)
+    order = list(range(n)); rng.shuffle(order)
+    for a in order:
+        out.append("top sigdroprace a%d" % a if rng.random() < 0.9 else "top sigdrop a%d" % a)
+        if rng.random() < 0.1: out.append("top gc")
+    out.append("top gc")
+    out.append("top frameend")
+    return "\n".join(out) + "\n"
+
 def gen_visibility(rng):
     """C03/C04/C05: several listeners per event; bodies run other systems (probes) and send further events, so readers
     are sampled at every position of the tree while data entities are still alive."""
@@ -1005,6 +1021,7 @@ PROFILES = {
     "wide": gen_wide,
     "huge": gen_huge,
     "burst": gen_burst,
+    "sigrace": gen_sigrace,
     "appreact": gen_appreact,
     "deeprec": gen_deeprec,
     "access2": gen_access2,
